@@ -161,15 +161,45 @@ def run(ctx):
             meta.append(("ctor", f))
         ctx.case(("un/ctor", f, min(len(b), 5)))
     longs = [[rnd.randrange(2) for _ in range(rnd.choice([13, 64, 257, 1000, 4099]))] for _ in range(60 if T else 15)]
+    # counts beyond one byte: 255 / 256 / 257 / 300 / 1000 ones, alone and with zeros around
+    for cnt1 in (255, 256, 257, 300, 512, 1000) + ((4096, 70000) if T else ()):
+        for pad in (0, 44):
+            b = [0] * pad + [1] * cnt1 + [0] * (pad // 2)
+            rnd.shuffle(b)
+            a = mk(b)
+            with deadline(60):
+                inv = ~a
+                events.append({"kind": "un", "bits": b, "inv": bits(inv), "inv2": bits(~inv), "len": len(a), "ones": int(a.ones()),
+                               "zeros": int(a.zeros()), "invones": int(inv.ones())})
+                meta.append(("un", len(b)))
+                inv_ = mk([1 - v for v in b])
+                events.append({"kind": "un", "bits": bits(inv_), "inv": bits(~inv_), "inv2": bits(~~inv_), "len": len(inv_), "ones": int(inv_.ones()),
+                               "zeros": int(inv_.zeros()), "invones": int((~inv_).ones())})
+                meta.append(("un", len(b)))
+            ctx.case(("un-long", cnt1, pad))
     pool = [s for s in strings if len(s) <= 6]
     pairs = [(a, b) for a in pool for b in pool] if T else [(a, b) for a in pool for b in pool if (len(a) + len(b)) % 3 == 0]
     pairs += [(a, b) for a in longs for b in rnd.sample(strings, 3)] + [(b, a) for a in longs[:5] for b in longs[:5]]
+    # empty operands (accepted container forms that can be empty)
+    pairs += [(a, []) for a in pool[:12]] + [(a, []) for a in longs[:3]]
     for n, (a, b) in enumerate(pairs):
-        f = ["str", "list", "tuple", "boollist", "strsep"][n % 5]
+        f = ["str", "list", "tuple", "boollist", "strsep", "ndarray", "ndarray-uint8", "ndarray-bool", "binary_sequence"][n % 9]
+        if len(b) == 0 and f in ("str", "strsep"):
+            f = "list"                                         # the empty string is not a bit string
+        def lit(f_):
+            if f_ == "binary_sequence":
+                return mk(b)
+            if f_.startswith("ndarray"):
+                return np.array(b, dtype={"ndarray": np.int64, "ndarray-uint8": np.uint8, "ndarray-bool": bool}[f_])
+            return payload(f_, b)
         A = mk(a)
-        with deadline(30):
-            out = A + (mk(b) if n % 2 else payload("ndarray" if n % 4 == 0 else f, b))
-            rout = payload(f, b) + A
+        try:
+            with deadline(30):
+                out = A + (mk(b) if n % 2 else lit("ndarray" if n % 4 == 0 else f))
+                rout = lit(f) + A
+        except Exception as e:          # (an ndarray on the left makes numpy, not the library, raise: still the library's concatenation failing)
+            ctx.violation(f"cat:raised:{f}", f"concatenation with a valid {f} operand raised {type(e).__name__}: {e}", {"a": a, "b": b, "form": f})
+            continue
         events.append({"kind": "cat", "a": a, "b": b, "out": bits(out), "rout": bits(rout)})
         meta.append(("cat", f))
         ctx.case(("cat", f, n % 2, min(len(a), 7) // 3, min(len(b), 7) // 3))
@@ -255,6 +285,22 @@ def run(ctx):
         events.append({"kind": "cmpany", "n": n, "out": bits(out) if isinstance(out, binary_sequence) else [2]})
         meta.append(("cmpany", op))
         ctx.case(("cmpany", op, noise is not None, thr_arr))
+    # thresholds of another length: rejected, or at any rate never a result of another length than the signal's
+    for sl, tl in [(1, 4), (1, 2), (3, 4), (4, 3), (5, 2), (2, 257), (4, 1), (1, 1), (7, 7)]:
+        for op in ("gt", "lt"):
+            for kind in ("ndarray", "list", "electrical_signal"):
+                E = electrical_signal(np.arange(sl) + 1.0)
+                thr = np.arange(tl) * 1.0 + 0.5
+                thr = thr.tolist() if kind == "list" else (electrical_signal(thr) if kind == "electrical_signal" else thr)
+                try:
+                    with deadline(30):
+                        out = (E > thr) if op == "gt" else (E < thr)
+                    rec = {"raised": "ok", "out": bits(out) if isinstance(out, binary_sequence) else [2]}
+                except Exception as e:
+                    rec = {"raised": type(e).__name__, "out": []}
+                events.append({"kind": "cmplen", "n": sl, "m": tl, **rec})
+                meta.append(("cmplen", op))
+                ctx.case(("cmplen", op, kind, sl == tl, tl == 1, sl == 1), None, nontrivial=rec["raised"] == "ok")
     for idx, clause in ctx.validate("BinSeqTrace", events, note="binary_sequence events",
                                     env={"DUMMY": 1}):
         m = meta[idx - 1]
